@@ -93,8 +93,10 @@ pub fn check_lifecycle(recs: &[Rec], facts_kill_ret: &HashMap<u64, u64>, stop_re
                 }
                 if let Some(kts) = facts_kill_ret.get(uid) {
                     if r.ts > *kts {
-                        // thread engine: one pick may be in flight when kill() returns
-                        if single_thread || st.allowance >= 1 || *cb == Cb::PostStop {
+                        // thread engine: one pick may be in flight when kill() returns. That includes post_stop: the biased
+                        // select in run_with_signal may have polled the (still empty) signal port just before the kill was
+                        // sent from another thread, and start post_stop just after kill() returned there.
+                        if single_thread || st.allowance >= 1 {
                             bad("after-kill", format!("uid {uid}: {cb:?} entered at #{} after kill() returned at #{kts}", r.ts));
                         }
                         st.allowance += 1;
